@@ -294,7 +294,7 @@ theorem mem_queryIter (w : World) (q : Q) (e : Entity) (it : Item) :
     simp only [hs, if_true, List.mem_map, Prod.mk.injEq]
     exact ⟨r, getElem?_mem_rows hr, he.symm, hi.symm⟩
 
-theorem rowAt_eq {w : World} {a i : Nat} {ar : Arch} {r : Row}
+theorem rowAt_eq_archs {w : World} {a i : Nat} {ar : Arch} {r : Row}
     (ha : w.archs[a]? = some ar) (hr : ar.rows[i]? = some r) : w.rowAt a i = some r := by
   simp [rowAt, ha, hr]
 
@@ -312,7 +312,7 @@ theorem viewGet_some_iff_mem (w : World) (hc : w.Core) (q : Q) (e : Entity) (it 
   constructor
   · rintro ⟨a, i, ar, r, hl, hg, ha, hr, hs, hi⟩
     obtain ⟨r', hr', hid⟩ := hc.loc_row _ _ _ hl
-    rw [rowAt_eq ha hr] at hr'
+    rw [rowAt_eq_archs ha hr] at hr'
     cases hr'
     refine ⟨a, i, ar, r, ha, hr, hs, ?_, hi⟩
     cases e
@@ -320,7 +320,7 @@ theorem viewGet_some_iff_mem (w : World) (hc : w.Core) (q : Q) (e : Entity) (it 
     subst hid
     rw [hg]
   · rintro ⟨a, i, ar, r, ha, hr, hs, he, hi⟩
-    have hl := hc.row_loc _ _ _ (rowAt_eq ha hr)
+    have hl := hc.row_loc _ _ _ (rowAt_eq_archs ha hr)
     subst he
     exact ⟨a, i, ar, r, hl, rfl, ha, hr, hs, hi⟩
 
@@ -402,8 +402,8 @@ theorem liveRows_nodup (w : World) (hc : w.Core) : (w.liveRows.map (·.1.id)).No
     obtain ⟨a, ha⟩ := mem_archs_toList har
     rw [List.pairwise_map, List.pairwise_iff_getElem]
     intro i j hi hj hij heq
-    have h1 := hc.row_loc a i _ (rowAt_eq ha (toList_getElem?_rows ar i hi))
-    have h2 := hc.row_loc a j _ (rowAt_eq ha (toList_getElem?_rows ar j hj))
+    have h1 := hc.row_loc a i _ (rowAt_eq_archs ha (toList_getElem?_rows ar i hi))
+    have h2 := hc.row_loc a j _ (rowAt_eq_archs ha (toList_getElem?_rows ar j hj))
     rw [heq, h2] at h1
     simp only [Option.some.injEq, Prod.mk.injEq] at h1
     omega
@@ -414,8 +414,8 @@ theorem liveRows_nodup (w : World) (hc : w.Core) : (w.liveRows.map (·.1.id)).No
     obtain ⟨r', hr', rfl⟩ := hy
     obtain ⟨i, hi⟩ := mem_rows_toList hr
     obtain ⟨j, hj⟩ := mem_rows_toList hr'
-    have h1 := hc.row_loc a i r (rowAt_eq (toList_getElem?_archs w a ha) hi)
-    have h2 := hc.row_loc b j r' (rowAt_eq (toList_getElem?_archs w b hb) hj)
+    have h1 := hc.row_loc a i r (rowAt_eq_archs (toList_getElem?_archs w a ha) hi)
+    have h2 := hc.row_loc b j r' (rowAt_eq_archs (toList_getElem?_archs w b hb) hj)
     rw [hxy, h2] at h1
     simp only [Option.some.injEq, Prod.mk.injEq] at h1
     omega
